@@ -107,13 +107,20 @@ def main():
     if sys.argv[1] == "matrix":
         tier = sys.argv[2] if len(sys.argv) > 2 else "quick"
         only_missing = "--missing" in sys.argv
+        names = []
         for name in sorted(os.listdir(os.path.join(V, "seeded"))):
             mp = os.path.join(V, "seeded", name, "meta.json")
             if os.path.exists(mp):
                 meta = json.load(open(mp))
                 if only_missing and meta["property"] in meta.get("checks", {}):
                     continue
-                run_checks(name, [], tier)
+                names.append(name)
+        jobs = int(os.environ.get("MATRIX_JOBS", "4"))
+        # several changes at a time, each check on 16/jobs worker processes
+        os.environ["VERIF_NPROC"] = str(max(1, 16 // jobs))
+        from multiprocessing.dummy import Pool
+        with Pool(jobs) as pool:
+            pool.map(lambda n: run_checks(n, [], tier), names)
 
 
 main()
